@@ -25,12 +25,13 @@ namespace RedunModel.C30
 open RedunModel.FileSys RedunModel.FileOps
 
 /-- (a) For every universe, state and operation: if the operation is a redun-mediated write / append /
-copy_to / stage / unstage / mkdir / rmdir / Dir.copy_to / StagingDir.stage / unstage (`target op = some k`)
+copy_to / stage / unstage / mkdir / rmdir / Dir.copy_to / StagingDir.stage / unstage, or a `File.open(mode)` stream whose
+mode string permits writing — `open_hook_iff_writable` — (`target op = some k`)
 and it reports success (not skipped, no error), then the cached hash of the object operated on equals the
 hash recomputed from the resulting filesystem. -/
 theorem fresh_after_op (U : List Path) (s : St) (op : Op) (k : Nat) (hk : target op = some k)
     (h : (step U s op).2 = .ok) : Fresh U (step U s op).1 k := by
-  cases op <;> simp only [target, Option.some.injEq, reduceCtorEq] at hk <;> subst hk
+  cases op <;> simp only [target, Option.some.injEq, reduceCtorEq] at hk <;> try subst hk
   case write i data t =>
     simp only [step] at h ⊢
     split at h
@@ -43,6 +44,21 @@ theorem fresh_after_op (U : List Path) (s : St) (op : Op) (k : Nat) (hk : target
     · rename_i fam p c hi
       exact ⟨_, getElem?_set_of_some _ _ _ _ hi, by simp [Obj.updateHash]⟩
     · cases h
+  case openMode i mode data t =>
+    split at hk
+    · rename_i hhook
+      simp only [Option.some.injEq] at hk
+      subst hk
+      simp only [step] at h ⊢
+      split at h
+      · rename_i fam p c base plus hi hm
+        split at h
+        · cases h
+        · rename_i fs' hr
+          simp only [hhook, if_true]
+          exact ⟨_, getElem?_set_of_some _ _ _ _ hi, by simp [Obj.updateHash]⟩
+      · cases h
+    · cases hk
   case copyTo i j skip t => exact copyFile_fresh U s i j skip t h
   case stage i j t =>
     simp only [step] at h ⊢
@@ -95,6 +111,58 @@ theorem fresh_after_op (U : List Path) (s : St) (op : Op) (k : Nat) (hk : target
         exact copyDir_fresh U s i j false t h
     · cases h
 
+
+/-- For every mode string Python accepts: the close hook is installed exactly when the stream permits writing
+(`w`, `a`, `x` in any spelling, and every `+` mode including `r+`, `r+b`, `rb+`). -/
+theorem open_hook_iff_writable (mode : List Char) (m : Base × Bool) (h : parseMode mode = some m) :
+    hookInstalled mode = canWrite m := by
+  unfold parseMode at h
+  simp only at h
+  split at h
+  · rename_i b hb
+    split at h
+    · simp only [Option.some.injEq] at h
+      subst h
+      have hmem : ∀ b', b' ∈ mode.filterMap (fun c =>
+          if c == 'r' then some Base.r else if c == 'w' then some Base.w else if c == 'a' then some Base.a
+          else if c == 'x' then some Base.x else none) ↔ b' = b := by
+        intro b'; rw [hb]; simp
+      rw [Bool.eq_iff_iff]
+      simp only [hookInstalled, List.any_eq_true, canWrite, Bool.or_eq_true, bne_iff_ne, ne_eq, beq_iff_eq,
+        List.contains_iff_mem]
+      constructor
+      · rintro ⟨c, hc, hcw⟩
+        rcases hcw with ((hcw | hcw) | hcw) | hcw
+        · left; intro hbr
+          have : Base.w = b := (hmem _).1 (List.mem_filterMap.2 ⟨c, hc, by simp [hcw]⟩)
+          rw [hbr] at this; cases this
+        · left; intro hbr
+          have : Base.a = b := (hmem _).1 (List.mem_filterMap.2 ⟨c, hc, by simp [hcw]⟩)
+          rw [hbr] at this; cases this
+        · left; intro hbr
+          have : Base.x = b := (hmem _).1 (List.mem_filterMap.2 ⟨c, hc, by simp [hcw]⟩)
+          rw [hbr] at this; cases this
+        · right; rw [← hcw]; exact hc
+      · rintro (hb' | hp)
+        · obtain ⟨c, hc, hf⟩ := List.mem_filterMap.1 ((hmem b).2 rfl)
+          refine ⟨c, hc, ?_⟩
+          by_cases h1 : c = 'r'
+          · simp [h1] at hf; exact absurd hf.symm hb'
+          · by_cases h2 : c = 'w'
+            · simp [h2]
+            · by_cases h3 : c = 'a'
+              · simp [h3]
+              · by_cases h4 : c = 'x'
+                · simp [h4]
+                · simp [h1, h2, h3, h4] at hf
+        · exact ⟨'+', hp, by simp⟩
+    · cases h
+  · cases h
+
+/-- all spellings of the update and write modes get the hook, the read modes do not (a finite table, by evaluation) -/
+theorem open_mode_table :
+    (["r+", "r+b", "rb+", "w", "wb", "w+", "wb+", "a", "ab", "a+", "x", "xb", "x+"].all fun m => hookInstalled m.toList) = true ∧
+    (["r", "rb", "rt"].all fun m => !hookInstalled m.toList) = true := by decide
 
 theorem run_append (U : List Path) (s : St) (ops : List Op) (op : Op) :
     run U s (ops ++ [op]) = (step U (run U s ops) op).1 := by
@@ -252,6 +320,10 @@ example : (Obj.isValid exU FS.empty ⟨.file .content ["d1", "a"], some (.f (.co
   decide
 example : (Obj.isValid exU (FS.empty.write ["d1", "a"] [97] 5) ⟨.file .content ["d1", "a"], some (.f (.content ["d1", "a"] (some [97])))⟩).1
     = true := by decide
+/-- in-place update through `open("r+b")`: the already cached hash is refreshed -/
+example : ((run exU St.init [.new (.file .content ["d1", "a"]), .extWrite ["d1", "a"] [97, 98, 99] 1, .hash 0,
+      .openMode 0 "r+b".toList [120] 2]).objs[0]?).map (·.cached) =
+    some (some (.f (.content ["d1", "a"] (some [120, 98, 99])))) := by decide
 end Examples
 
 end RedunModel.C30
